@@ -114,6 +114,18 @@ impl InlineCache {
     self.set_invoke(inline_slot, None);
   }
 
+  /// The number of property slots in this cache
+  #[cfg(feature = "verif")]
+  pub fn verif_property_len(&self) -> usize {
+    self.property.len()
+  }
+
+  /// The number of invoke slots in this cache
+  #[cfg(feature = "verif")]
+  pub fn verif_invoke_len(&self) -> usize {
+    self.invoke.len()
+  }
+
   fn set_property(&mut self, inline_slot: usize, value: Option<PropertyCache>) {
     debug_assert!(inline_slot < self.property.len());
     unsafe { *self.property.get_unchecked_mut(inline_slot) = value };
